@@ -760,7 +760,9 @@ class Interp:
             # Python fixes no iteration order for a set (hash randomisation): every order is a path
             items = list(v)
             if len(items) > 4:
-                raise Undecided("iteration over a set of more than 4 elements under the arbitrary-order model")
+                # larger sets: three representative orders (each one is possible; not all of them - bounded scenarios only)
+                k = self.ctx.choose(3, "set iteration order (native / reversed / rotated)")
+                return items if k == 0 else items[::-1] if k == 1 else items[len(items) // 2:] + items[:len(items) // 2]
             out = []
             while len(items) > 1:
                 out.append(items.pop(self.ctx.choose(len(items), "set iteration order")))
@@ -2318,6 +2320,8 @@ def _m_abs(interp, v):
 
 
 def _m_sorted(interp, v, key=None, reverse=False):
+    if isinstance(v, (set, frozenset)) and key is None and (all(type(x) is str for x in v) or all(type(x) is int for x in v)):
+        return sorted(v, reverse=bool(reverse))  # a total order on distinct elements: the result does not depend on the iteration order
     items = interp.iterate(v)
     if contains_sym(items):
         # a short list of numbers: insertion sort, forking on each comparison (every order is explored)
